@@ -221,7 +221,8 @@ def matrix_history(cfg, sizes, kinds):
     for n in names:
         calls += [{"op": "readfile", "name": n, "tag": n}, {"op": "stat", "name": n, "tag": n}, {"op": "restore", "name": n, "name2": "", "flag": True, "tag": n}]
     calls.append({"op": "nop", "obs": ["fetch", "tree", "rebuild"], "tag": "fetch"})
-    return {"config": cfg, "blobs": blobs, "obs": [], "calls": calls, "expect": expect, "dirs": dirs}
+    # the tape is looked at after every call (C05: appended only, block grid, iterable by a standard reader, under every pipeline)
+    return {"config": cfg, "blobs": blobs, "obs": ["tape", "prefix"], "calls": calls, "expect": expect, "dirs": dirs}
 
 
 def matrix_stream(ctx):
